@@ -6,6 +6,7 @@ from framework import oracles as O
 
 INC, CONS, ENT = 0, 1, 2
 HULL_LIMIT = 20000
+SAMPLES = 150
 
 
 def contains(outer, inner):
@@ -71,6 +72,41 @@ def judge(name, box, params, status, out, second=None, hull_limit=HULL_LIMIT, hu
             fails.append({"prop": "C05", "kind": "false_inconsistency",
                           "detail": "inconsistency reported but %d tuples of the input box satisfy it (hull %r)"
                                     % (cnt, hull)})
+    # ---------------- beyond the enumeration limit: sampled forms of the same oracles (sound: every report is a real tuple)
+    if not facts["hull"] and status in (INC, CONS, ENT):
+        import random
+
+        rs = random.Random(hash((name, tuple(map(tuple, box)), tuple(params))) & 0xffffffff)
+        found = None
+        tried = 0
+        cands = [tuple(b[0] for b in box), tuple(b[1] for b in box)]
+        while tried < SAMPLES:
+            t = cands[tried] if tried < len(cands) else tuple(rs.randint(b[0], b[1]) for b in box)
+            tried += 1
+            if (not circuit or O.is_permutation(t)) and O.SEM[name](t, params):
+                facts["sampled_satisfying"] = facts.get("sampled_satisfying", 0) + 1
+                if status == INC:
+                    found = t
+                    break
+                if nonempty(out) and not all(o[0] <= v <= o[1] for o, v in zip(out, t)):
+                    found = t
+                    break
+        facts["sampled"] = tried
+        if found is not None and status == INC:
+            fails.append({"prop": "C05", "kind": "false_inconsistency",
+                          "detail": "inconsistency reported but tuple %r of the input box satisfies the constraint "
+                                    "(sampled)" % (list(found),)})
+            if name in O.BC_TYPES:
+                fails.append({"prop": "C14", "kind": "inconsistency_although_satisfiable",
+                              "detail": "inconsistency reported but tuple %r satisfies the constraint (sampled)" % (
+                                  list(found),)})
+        elif found is not None:
+            fails.append({"prop": "C05", "kind": "lost_solution",
+                          "detail": "tuple %r satisfies the constraint and lies in the input box but not in output %r "
+                                    "(sampled)" % (list(found), out)})
+            if name in O.BC_TYPES:
+                fails.append({"prop": "C14", "kind": "smaller_than_hull",
+                              "detail": "output %r excludes the satisfying tuple %r (sampled)" % (out, list(found))})
     # ---------------- C06
     if status != INC and nonempty(out) and is_point(out):
         t = tuple(a for a, _ in out)
@@ -94,6 +130,25 @@ def judge(name, box, params, status, out, second=None, hull_limit=HULL_LIMIT, hu
                 fails.append({"prop": "C07", "kind": "entailed_but_violable",
                               "detail": "entailment reported on output %r which contains violating tuple %r"
                                         % (out, bad)})
+        else:
+            import random
+
+            rs = random.Random(hash((name, tuple(map(tuple, out)), tuple(params), 7)) & 0xffffffff)
+            facts["entail_sampled"] = True
+            for k in range(SAMPLES):
+                if k == 0:
+                    t = tuple(b[0] for b in out)
+                elif k == 1:
+                    t = tuple(b[1] for b in out)
+                else:
+                    t = tuple(rs.choice((b[0], b[1], rs.randint(b[0], b[1]))) for b in out)
+                if circuit and not O.is_permutation(t):
+                    continue
+                if not O.SEM[name](t, params):
+                    fails.append({"prop": "C07", "kind": "entailed_but_violable",
+                                  "detail": "entailment reported on output %r which contains violating tuple %r (sampled)"
+                                            % (out, list(t))})
+                    break
     # ---------------- C14
     if name in O.BC_TYPES and facts["hull"]:
         if hull is None:
